@@ -43,6 +43,24 @@ Definition c (fsl : list (string * option tree)) (gl : list (string * option (li
     mkin (map unhex args) recursive z (N.to_nat batch) (unhex stdin) stdin_err (mode, q)),
    mkobs (map mkline lines) exit (N.to_nat nlog)).
 
+(* ---- large inputs: byte strings in run-length form [("hex", n); ...] (each piece repeated n times) ---- *)
+Definition rl (ps : list (string * N)) : bytes :=
+  flat_map (fun p => List.concat (repeat (unhex (fst p)) (N.to_nat (snd p)))) ps.
+
+(* cr name content z gunzip-of-content stdin? batch mode q | observed lines exit nlog:
+   ONE input of [content] bytes, either the file [name] given as the only argument (gz = what compress/gzip
+   says about the content, consulted only with -z) or standard input (no argument) *)
+Definition cr (name : string) (content : list (string * N)) (z : bool) (gz : option (list (string * N) * bool))
+              (from_stdin : bool) (batch : N) (mode q : N)
+              (lines : list (string * N * list (string * N))) (exit : Z) (nlog : N) : inp * cli_obs :=
+  let cb := rl content in
+  let nm := unhex name in
+  ((if from_stdin then mko [] [] []
+    else mko [(nm, Some (TFile cb))] [(nm, Some [nm])]
+             (if z then [(cb, option_map (fun y => (rl (fst y), snd y)) gz)] else []),
+    mkin (if from_stdin then [] else [nm]) false z (N.to_nat batch) (if from_stdin then cb else []) false (mode, q)),
+   mkobs (map (fun x => (unhex (fst (fst x)), snd (fst x), rl (snd x))) lines) exit (N.to_nat nlog)).
+
 Definition model (i : inp) : cli_obs :=
   let (o, ci) := i in
   cli_model (fs_of o) (glob_of o) (gz_of o) (fun _ => 4096) [] ci.
